@@ -293,3 +293,37 @@ Proof. intros n p. exact (update_unlimited true true n p). Qed.
 Lemma update_memory_statement : forall n p, mib4 <= p_memory p ->
   o_memory (update n p) = p_memory p /\ o_swap (update n p) = p_memory p.
 Proof. intros n p. exact (update_memory_limit true true n p). Qed.
+
+(* ---- int64(math.Round(y)) is an integer nearest to the exact value of the float y ---- *)
+
+(* value of a finite float as a fraction num/den (magnitude) *)
+Definition mag_frac (m e : Z) : Z * Z :=
+  if e <? 0 then (m, Z.pow 2 (- e)) else (m * Z.pow 2 e, 1).
+
+Lemma round_nearest : forall s m e H,
+  let a : f64 := B754_finite 53 1024 s m e H in
+  let z := if s then - f_round_Z a else f_round_Z a in
+  let '(num, den) := mag_frac (Zpos m) e in
+  0 < den /\ 0 <= z /\ Z.abs (z * den - num) * 2 <= den.
+Proof.
+  intros s m e H a z. unfold z, a, f_round_Z, mag_frac.
+  destruct e as [|p|p].
+  - cbn [Z.ltb Z.compare]. rewrite Z.pow_0_r.
+    destruct s; rewrite ?Z.opp_involutive; repeat split; try lia.
+  - replace (Z.pos p <? 0) with false by (symmetry; apply Z.ltb_ge; lia).
+    assert (Hp : 0 < 2 ^ Z.pos p) by (apply Z.pow_pos_nonneg; lia).
+    destruct s; rewrite ?Z.opp_involutive; repeat split; try lia; try nia.
+  - replace (Z.neg p <? 0) with true by (symmetry; apply Z.ltb_lt; lia).
+    change (- Z.neg p) with (Z.pos p).
+    set (d := 2 ^ Z.pos p).
+    assert (Hd : 0 < d) by (apply Z.pow_pos_nonneg; lia).
+    assert (Hq : Z.quot (Z.pos m) d = Z.pos m / d) by (apply Z.quot_div_nonneg; lia).
+    rewrite Hq.
+    pose proof (Z.div_mod (Z.pos m) d ltac:(lia)) as Hdm.
+    pose proof (Z.mod_pos_bound (Z.pos m) d Hd) as Hmod.
+    assert (Hqq : 0 <= Z.pos m / d) by (apply Z.div_pos; lia).
+    set (q := Z.pos m / d) in *. set (r := Z.pos m mod d) in *.
+    assert (Hr : Z.pos m - q * d = r) by lia. rewrite Hr.
+    destruct (2 * r >=? d) eqn:E; [apply Z.geb_le in E|rewrite Z.geb_leb in E; apply Z.leb_gt in E];
+      destruct s; rewrite ?Z.opp_involutive; repeat split; try lia; try nia.
+Qed.
